@@ -79,6 +79,126 @@ def bombs():
     return out
 
 
+def group_of(h):
+    """Traces of one input family fail for the same reason: after the first rejection the rest of the family is skipped."""
+    import re
+    parts = h.get("id", "").split("/")
+    if len(parts) < 2:
+        return h.get("id")
+    if parts[0] == "H6" and len(parts) >= 3:
+        return parts[1] + "/" + re.sub(r"[0-9]+", "", parts[2])
+    return parts[1].rstrip("0123456789")
+
+
+def lp(*nals):
+    return b"".join(len(n).to_bytes(4, "big") + n for n in nals)
+
+
+def context_bombs():
+    """H6: NAL unit sequences that bring their own context: the count / range bomb sits in a parameter set and goes
+    off while a LATER unit (slice header, SEI) is parsed against it."""
+    out = []
+    B = rc.BitW
+    avc_sps = B().u(8, 66).u(8, 0).u(8, 30).ue(0).ue(0).ue(2).ue(1).u(1, 0).ue(19).ue(14).u(1, 1).u(1, 1).u(1, 0).u(1, 0).bytes_rbsp(b"\x67")
+
+    def avc_pps(l0, l1, wpred, wbipred, groups=0, mtype=0, rate=0, redundant=0):
+        w = B().ue(0).ue(0).u(1, 0).u(1, 0).ue(groups)
+        if groups > 0:
+            w.ue(mtype)
+            if mtype in (3, 4, 5):
+                w.u(1, 0).ue(rate)
+        w.ue(l0).ue(l1).u(1, wpred).u(2, wbipred).ue(0).ue(0).ue(0).u(1, 1).u(1, 0).u(1, redundant)
+        return w.bytes_rbsp(b"\x68")
+
+    def avc_slice(stype, override=None, tail=24):
+        w = B().ue(0).ue(stype).ue(0).u(4, 3)
+        if stype % 5 == 1:
+            w.u(1, 1)                                   # direct_spatial_mv_pred_flag
+        if stype % 5 in (0, 1, 3):
+            if override is None:
+                w.u(1, 0)
+            else:
+                w.u(1, 1).ue(override)
+                if stype % 5 == 1:
+                    w.ue(override)
+            w.u(1, 0)                                   # no list modification l0
+            if stype % 5 == 1:
+                w.u(1, 0)
+        w.ue(2).ue(1)                                   # weight denominators (when a table is parsed)
+        for _ in range(tail):
+            w.u(1, 1).ue(3).ue(5)
+        return w.bytes_rbsp(b"\x41")
+
+    big = [31, 32, 255, 65535, (1 << 31) - 2, (1 << 32) - 2]
+    for v in big:
+        for st in (0, 1, 5, 6):
+            out.append(("H6/avc/pps-default-refidx-%d/slice%d" % (v, st), "ctx-avc", lp(avc_sps, avc_pps(v, v, 1, 1), avc_slice(st))))
+            out.append(("H6/avc/slice-override-refidx-%d/slice%d" % (v, st), "ctx-avc", lp(avc_sps, avc_pps(0, 0, 1, 1), avc_slice(st, override=v))))
+    for mt in (3, 4, 5):
+        for rate in (0, 1, 1 << 16, (1 << 32) - 2):
+            for groups in (1, 7):
+                out.append(("H6/avc/slice-groups%d-type%d-rate%d" % (groups, mt, rate), "ctx-avc", lp(avc_sps, avc_pps(0, 0, 0, 0, groups, mt, rate), avc_slice(0))))
+    # HEVC: SPS with VUI timing + HRD, cpb_cnt_minus1 beyond 31; sub-picture parameters; then a pic_timing SEI and a slice
+    def hevc_sps(cpbcnt, subpic, insei, nal=1, vcl=0, maxsub=0, fixed=1, lowdelay=0):
+        w = B().u(4, 0).u(3, maxsub).u(1, 1)
+        w.u(2, 0).u(1, 0).u(5, 1).u(32, 0x60000000).u(4, 9).u(32, 0).u(12, 0).u(8, 93)
+        for _ in range(maxsub):
+            w.u(1, 0).u(1, 0)
+        if maxsub > 0:
+            for _ in range(8 - maxsub):
+                w.u(2, 0)
+        w.ue(0).ue(1).ue(64).ue(64).u(1, 0).ue(0).ue(0).ue(4)
+        w.u(1, 1)
+        for _ in range(maxsub + 1):
+            w.ue(1).ue(0).ue(0)
+        w.ue(0).ue(3).ue(0).ue(3).ue(0).ue(0).u(1, 0).u(1, 0).u(1, 0).u(1, 0).ue(0).u(1, 0).u(1, 0).u(1, 0)
+        w.u(1, 1)                                        # vui present
+        w.u(1, 0).u(1, 0).u(1, 0).u(1, 0).u(1, 0).u(1, 0).u(1, 0).u(1, 0)
+        w.u(1, 1).u(32, 1001).u(32, 60000).u(1, 0).u(1, 1)          # timing info, hrd present
+        w.u(1, nal).u(1, vcl)
+        if nal or vcl:
+            w.u(1, subpic)
+            if subpic:
+                w.u(8, 5).u(5, 7).u(1, insei).u(5, 9)
+            w.u(4, 1).u(4, 1)
+            if subpic:
+                w.u(4, 2)
+            w.u(5, 23).u(5, 15).u(5, 5)
+        for _ in range(maxsub + 1):
+            w.u(1, fixed)
+            if not fixed:
+                w.u(1, 0).u(1, lowdelay)
+            else:
+                w.ue(10)
+            if not lowdelay or fixed:
+                w.ue(cpbcnt)
+            for _ in range(min(cpbcnt + 1, 40) * (nal + vcl)):
+                w.ue(100).ue(200)
+                if subpic:
+                    w.ue(3).ue(4)
+                w.u(1, 0)
+        w.u(1, 0).u(1, 0)
+        return w.bytes_rbsp(b"\x42\x01")
+
+    hevc_pps = B().ue(0).ue(0).u(1, 0).u(1, 0).u(3, 0).u(1, 0).u(1, 0).ue(0).ue(0).ue(0).u(1, 0).u(1, 0).u(1, 0).ue(0).ue(0).u(1, 0).u(1, 0).u(1, 0).u(1, 0) \
+        .u(1, 0).u(1, 0).u(1, 1).u(1, 0).u(1, 0).u(1, 0).ue(0).u(1, 0).u(1, 0).bytes_rbsp(b"\x44\x01")
+    hevc_slice = B().u(1, 1).ue(0).ue(2).u(8, 0x55).u(8, 0xaa).bytes_rbsp(b"\x02\x01")
+    for cpb in (0, 31, 32, 254, 255, 256, 1 << 16):
+        for subpic in (0, 1):
+            for (nal, vcl) in ((1, 0), (0, 1), (1, 1)):
+                sps = hevc_sps(cpb, subpic, 1, nal, vcl)
+                out.append(("H6/hevc/hrd-cpbcnt%d-subpic%d-nal%d-vcl%d" % (cpb, subpic, nal, vcl), "nal-hevc", sps))
+                for plen in (0, 1, 4, 9, 40):
+                    for fill in (0x00, 0xff, 0x5a):
+                        sei = bytes([0x4e, 0x01, 1, plen]) + bytes([fill]) * plen + b"\x80"
+                        out.append(("H6/hevc/pic-timing-after-hrd-cpb%d-subpic%d-nal%d-vcl%d/len%d-%02x" % (cpb, subpic, nal, vcl, plen, fill), "ctx-hevc",
+                                    lp(sps, hevc_pps, sei, hevc_slice)))
+    for maxsub in (1, 6):
+        out.append(("H6/hevc/hrd-sublayers%d" % maxsub, "nal-hevc", hevc_sps(3, 1, 1, 1, 1, maxsub)))
+        out.append(("H6/hevc/hrd-sublayers%d-lowdelay" % maxsub, "nal-hevc", hevc_sps(3, 0, 0, 1, 0, maxsub, fixed=0, lowdelay=1)))
+    return out
+
+
 def run(ctx):
     q = ctx.tier == "quick"
     t = "quick" if q else "thorough"
@@ -112,6 +232,17 @@ def run(ctx):
     for name, hx in (("vps", HEVC_VPS), ("sps", HEVC_SPS), ("pps", HEVC_PPS)):
         items += rc.mutate(bytes.fromhex(hx), "nal-hevc", "H3/hevc-" + name, dense=400, first=40)
     items += bombs()
+    # H6: parameter sets + slice header / SEI parsed in sequence: context bombs and the (sps, pps, slice) triples of both syntax specs
+    items += context_bombs()
+    for mod, cfg, kind in (("AvcSyntax", "Avc_slice_quick.cfg", "ctx-avc"), ("HevcSyntax", "Hevc_slice_quick.cfg", "ctx-hevc")):
+        r = ctx.tlc_ok(mod, cfg, workers=12, timeout=3000, heap="12g", stack="256m")
+        step = 60 if q else 6
+        ex = sorted(r.exported, key=lambda e: str(e["nal"]) + str(e["ppsnal"]))
+        for i, e in enumerate(ex):
+            if i % step == ctx.seed % step:
+                seq = lp(bytes(e["spsnal"]), bytes(e["ppsnal"]), bytes(e["nal"]))
+                items.append(("H6/%s-triple%d" % (kind, i), kind, seq))
+                items += rc.mutate(seq, kind, "H6/%s-triple%d" % (kind, i), dense=48, first=0)
     # H4: SEI NAL units and typed payloads (SeiSyntax.tla) mutated
     r = ctx.tlc_ok("SeiSyntax", "Sei_list_quick.cfg", workers=12, timeout=3000, heap="12g", stack="128m")
     step = 300 if q else 40
@@ -149,13 +280,15 @@ def run(ctx):
     ctx.cov["distinct_nontrivial"] = len(set(b for _, _, b in items))
     ctx.add_samples([{"id": i, "kind": k, "hex": b.hex()[:160]} for i, k, b in items[:1] + items[len(items) // 2:len(items) // 2 + 2]])
     ctx.validate_traces_all("Robust", "Robust_trace.cfg", trace, keyfn=rc.keyfn, max_rejects=60, heap="12g",
-                            groupfn=lambda h: h.get("id", "").split("/")[1].rstrip("0123456789") if "/" in h.get("id", "") else h.get("id"),
+                            groupfn=group_of,
                             what="Robust.tla totality invariant violated")
     ctx.cov["bounds"] = {"H1": "all samples of <= %d units with length fields in {0,1,true,true+1,2^31,2^32-4,2^32-1} and every truncation" % (2 if q else 3),
                          "H2": "Annex B windows / unit streams and samples, every prefix and head substitutions {00,01,7F,80,FF}",
                          "H3": "AVC SPS/PPS/slice vectors and HEVC VPS/SPS/PPS mutated; hand-made count/length/id bombs",
                          "H4": "SEI NAL units and typed payloads mutated; payloads of 0..29 bytes of 00/FF/80",
                          "H5": "ASC, ADTS, avcC, hvcC, av1C: every prefix, head substitutions",
+                         "H6": "NAL unit sequences with their own context (SPS, PPS, then slice header / SEI parsed against them): count and range bombs placed in the parameter sets "
+                               "(reference index counts, slice group change rate, HRD cpb counts, sub-picture HRD flags) and the (sps, pps, slice) triples of AvcSyntax.tla / HevcSyntax.tla with mutations",
                          "budgets": "2 s + 20 us/byte wall, 16 MiB + 1024 x length allocated, worker under ulimit -v 8 GB", "fatal_worker_crashes": fatals}
     ctx.cov["rule"] = ("inputs = Robust.tla H1 grammar (exhaustive) + mutation operators applied to behaviours exported by the syntax specs; "
                        "each input is run through every entry point of its family in an isolated process under recover(); "
